@@ -188,7 +188,7 @@ def correspondence(pid, run, tier, seed, outdir, boost=1):
     cmd = [exe, run['mode'], '--seed', str(seed), '--cases', str(cases), '--out', outdir] + run.get('args', [])
     if boost > 1:
         cmd += ['--boost', str(boost)]
-    r = {'name': name, 'cmd': ' '.join(cmd), 'cases': 0, 'agree': 0, 'disagree': [], 'monitor_fail': [], 'stats': {}, 'samples': [], 'errors': []}
+    r = {'name': name, 'priority': run.get('priority', 5), 'cmd': ' '.join(cmd), 'cases': 0, 'agree': 0, 'disagree': [], 'monitor_fail': [], 'stats': {}, 'samples': [], 'errors': []}
     rc, out, dt = sh(cmd, run.get('timeout', 600), env={'RUST_BACKTRACE': '0'})
     r['harness_s'] = round(dt, 2)
     if rc != 0:
@@ -404,7 +404,7 @@ def run_check(pid, P, tier, seed, replay, t0):
             if hit:
                 known_hits.append((hit[0], case))
                 continue
-            violations.append(('monitor', 'property monitor false on the implementation trace of %s case %s' % (c['name'], case.get('case')), {'run': c['name'], 'case': strip(case)}, True))
+            violations.append(('monitor', 'property monitor false on the implementation trace of %s case %s' % (c['name'], case.get('case')), {'run': c['name'], 'case': strip(case), 'priority': c.get('priority', 5) - (1 if case.get('kind') == 'global' else 0)}, True))
         for case in c['disagree']:
             if case in c['monitor_fail']:
                 continue
@@ -432,8 +432,9 @@ def run_check(pid, P, tier, seed, replay, t0):
         return 0
     # prefer a violation with a concrete failing input as the replay
     with_input = [v for v in violations if v[3]]
+    with_input.sort(key=lambda v: v[2].get('priority', 5))     # stable: the most telling replay first (e.g. the multi-node agreement monitor for C01)
     first = (with_input or violations)[0]
-    payload = {'message': first[1], 'detail': first[2], 'all': [v[1] for v in violations][:20]}
+    payload = {'message': first[1], 'detail': first[2], 'all': [v[1] for v in (with_input + [x for x in violations if not x[3]])][:40]}
     if first[0] == 'monitor' or first[0] == 'correspondence':
         payload['run'] = first[2].get('run')
         payload['case'] = first[2].get('case')
